@@ -39,7 +39,7 @@ def run(ctx: Ctx):
     res = logicobl.obligations(ctx, ['sound_core', 'rules_sound', 'c01_valid_sound'], extra_modules=['Ptx.Props.C09'] + write_obligations.modules)
     names = sorted(n for n, d in data.items() if 'fatal' not in d)
     rng = ctx.rng
-    nargs = ctx.scale(6, 40)
+    nargs = ctx.scale(6, 20)
     ms = ctx.scale(300, 1500)
     seeds = [0, 1, 2, 3] if not ctx.thorough else list(range(6))
     by_seed = collections.defaultdict(list)
